@@ -9,7 +9,7 @@
 From Coq Require Import String.
 From Coq Require Import List Ascii ZArith Bool.
 From CGV Require Import Base.PyBase Base.PyVal Base.PyGen Sample.GenSupport Gen.SamplerGen Sample.SampleImpl
-     Sample.SampleDefs Sample.SampleSpec Sample.SampleProofs Sample.SampleHistory Sample.SampleExample.
+     Sample.SampleDefs Sample.SampleSpec Sample.SampleProofs Sample.SampleOrder Sample.SampleHistory Sample.SampleExample.
 Import ListNotations.
 Open Scope Z_scope.
 
@@ -93,6 +93,46 @@ Theorem C17_seed_determines : forall (M : Type) c0 madd mltb misz (R : Type) rse
   end.
 Proof. exact seed_determines. Qed.
 
+(** seed determinism ACROSS PROCESSES (hash seeds): every candidate list handed to random.choice /
+    random.choices is an explicit order-preserving function of the insertion orders of the inputs
+    (fragment dict order, node order, descriptor order, node insertion order of the molecule):
+    grouping by first appearance and filtering in order; no set / hash iteration order enters.
+    With [C17_seed_determines] (the generator is re-seeded by the constructor) the picked indices,
+    hence the molecule, are the same in every interpreter process.  [C17_complement_candidates_exact]
+    is about the GENERATED look-up: iterating a set there (seeded change C17-1) leaves the translatable
+    shapes ([C17_translation_current] breaks) and contradicts this statement. *)
+Theorem C17_open_bonds_insertion_order : forall m,
+  map fst (find_open_bonds m) = dedup (map fst (open_pairs m)) /\
+  forall d, dict_get_default (find_open_bonds m) d [] = map snd (filter (fun p => str_eqb d (fst p)) (open_pairs m)).
+Proof. intros m. split; [exact (open_bonds_keys_order m)|exact (open_bonds_nodes_order m)]. Qed.
+Theorem C17_fragments_by_bonding_insertion_order : forall fd,
+  map fst (fragments_by_bonding fd) = dedup (map fst (frag_pairs fd)) /\
+  forall d, dict_get_default (fragments_by_bonding fd) d [] = map snd (filter (fun p => str_eqb d (fst p)) (frag_pairs fd)).
+Proof. intros fd. split; [exact (byb_keys_order fd)|exact (byb_fragments_order fd)]. Qed.
+Theorem C17_complement_candidates_exact : forall d elig, d <> [] -> Forall (fun c => c <> []) elig ->
+  find_complementary_bonding_descriptor d elig =
+    match d with
+    | k :: _ =>
+        if Ascii.eqb k "$" && match elig with [] => false | _ => true end
+        then Ok (filter (dollar_partner d) elig)
+        else if str_in (flipped d) elig then Ok [flipped d] else Err EIO
+    | [] => Err EIndex
+    end.
+Proof. exact find_compl_exact. Qed.
+Theorem C17_step_select_determined : forall (M : Type) c0 misz (R : Type) pick (cfg : config M) rng ob s rng',
+  step_select M c0 misz R pick cfg rng ob = Ok (s, rng') ->
+  exists i1 i2 i3 i4 cb, s_picks s = [i1; i2; i3; i4] /\
+    nth_error (map fst ob) i1 = Some (s_bonding s) /\
+    nth_error (dict_get_default ob (s_bonding s) []) i2 = Some (s_source s) /\
+    find_complementary_bonding_descriptor (s_bonding s) (map fst (c_byb cfg)) = Ok cb /\
+    nth_error cb i3 = Some (s_compl s) /\
+    nth_error (dict_get_default (c_byb cfg) (s_compl s) []) i4 = Some (s_fragname s, s_tnode s).
+Proof. exact step_select_determined. Qed.
+Example C17_order_nonvacuous :
+  find_complementary_bonding_descriptor (S "$B1") [S "$A1"; S ">1"; S "$C2"; S "$B1"; S "$D1"] = Ok [S "$A1"; S "$B1"; S "$D1"] /\
+  dedup [S "b"; S "a"; S "b"; S "c"; S "a"] = [S "b"; S "a"; S "c"].
+Proof. split; reflexivity. Qed.
+
 (** non-vacuity: the example run (six steps; masses 28/15, target 120): 129 >= 120 and 114 < 120;
     the zero conditional weight ('$A' -> '$A') is never chosen, the terminal '$B' closes its atom *)
 Example C17_nonvacuous :
@@ -124,4 +164,8 @@ Print Assumptions C17_terminal_closes_atom.
 Print Assumptions C17_closed_stays_closed.
 Print Assumptions C17_terminal_withdrawn.
 Print Assumptions C17_seed_determines.
+Print Assumptions C17_open_bonds_insertion_order.
+Print Assumptions C17_fragments_by_bonding_insertion_order.
+Print Assumptions C17_complement_candidates_exact.
+Print Assumptions C17_step_select_determined.
 Print Assumptions C17_nonvacuous.
